@@ -449,13 +449,16 @@ func (o Obs) Coq() string {
 
 // Query is a read-only question asked of the handle after a step.
 type Query struct {
-	Kind string // "many", "one", "data"
+	Kind string // "many", "one", "data", "meta"
 	Sels []Selector
 	ID   uint32
 	// observed
 	Err   string      // "" if none
 	IDs   [][2]uint32 // (ID, relative ID)
 	Bytes []byte
+	// observed by "meta": every typed accessor of the descriptor (coq/Meta.v meta_view)
+	Name, Arch, FP, Digest []byte
+	Nums                   []int64
 }
 
 func (q Query) Coq() string {
@@ -469,6 +472,8 @@ func (q Query) Coq() string {
 		qs = "QMany [" + strings.Join(sels, "; ") + "]"
 	case "one":
 		qs = "QOne [" + strings.Join(sels, "; ") + "]"
+	case "meta":
+		qs = fmt.Sprintf("QMeta %d", q.ID)
 	default:
 		qs = fmt.Sprintf("QData %d", q.ID)
 	}
@@ -476,6 +481,12 @@ func (q Query) Coq() string {
 	switch {
 	case q.Err != "":
 		ob = "QErr " + q.Err
+	case q.Kind == "meta":
+		var ns []string
+		for _, n := range q.Nums {
+			ns = append(ns, CoqZ(n))
+		}
+		ob = fmt.Sprintf("QView %s [%s] %s %s %s", CoqBytes(q.Name), strings.Join(ns, ";"), CoqBytes(q.Arch), CoqBytes(q.FP), CoqBytes(q.Digest))
 	case q.Kind == "data":
 		ob = "QBytes " + CoqRLE(q.Bytes)
 	default:
